@@ -9,6 +9,8 @@ THEOREMS = [
     # sequential: refinement of the insertion-ordered-list specification, for all histories
     "C15.kb_refines_spec",
     "C15.model_meets_spec",
+    "C15.bulk_load_is_prefix",
+    "C15.bulk_load_state",
     "C15.lookup_latest",
     "C15.duplicate_rejected_no_effect",
     "C15.listing_once_sorted_stable",
